@@ -40,6 +40,16 @@ CLAIMED = {
         'every created issue is described and added. Necessary conditions of "every rule violation is reported"; rule predicates and false positives are not decided.',
    note='Trusted: clang AST/CFG; the frozen traversal table and rule floor (sa/tables/validator_rules.json).',
    ref='DESIGN.md section 4, C04'),
+ 'C06': dict(
+   technique='static analysis: interprocedural provenance (origin) analysis of every mutated entity in the reach of flattenModel, CFG gate/loop-exit rules, subtree-traversal completeness on the call graph, accumulator-flag monotonicity, rename-then-update ordering, borrowed clone() coverage/deep-copy rules',
+   text='(P) Every expression denoting an entity in the 280 functions flattenModel reaches gets a set of origins (created here / library model / import source / parameter), propagated through locals, containers, getters and function summaries; '
+        'no state-changing entity method, Impl write or mutating helper may be applied to an object originating from the model passed in, from ImportSource::model() or from an import source, and the result must originate from clone(). '
+        '(G) the flat model is created behind the null/import-issue/definedness gates and returned only after `while (hasImports())` ended with no early exit. (V) helpers that walk an imported component re-enter the walk for every child (whole subtree). '
+        '(A) flags that accumulate over a loop are only raised. (U) renaming a units is followed by rewriting both variables and cn elements and is reported to the caller. (K) the clone() rules of C11 hold (the flat model is built from clones only). '
+        'Necessary conditions of "inputs unchanged", "import-free" and "renamed consistently"; validity and numerical equivalence of the flat model are not decided.',
+   note='Trusted: clang AST/CFG/call graph; "state-changing" is computed from method bodies; navigation from a clone stays in the clone (re-checked by the borrowed C11.D1). The transient add/remove of a dummy variable on a library component in indexStackOf is accepted only while the pairing rule holds. '
+        'Two defects were replayed and repaired (fix commits 86ae2d4, 1d5c1b8).',
+   ref='DESIGN.md section 4, C06'),
  'C07': dict(
    technique='static analysis: history-test dominance on import recursion, interprocedural fails=>logged summaries, CFG ordering rules (fresh start, commit-on-success), dataflow slices (normalised keys, base path)',
    text='Every recursive step along an import is dominated by a history test whose history is handed on; every path on which a fetch/check function, resolveImports or flattenModel yields its failure value has added an issue; '
